@@ -9,7 +9,7 @@ LEVEL = "exploration"
 RULE = (
     "Engine-A runs over devices (0/1/2 holes, 2..4 terminals), balanced constant / piecewise / ramped terminal currents "
     "(integer, dyadic, non-representable decimal amplitudes), fields zero/static/time-dependent, screening, adaptivity, "
-    "thermalisation, unit systems, injected refusals; non-trivial = at least 3 updates checked with a non-zero terminal current "
+    "thermalisation, unit systems, injected refusals, stops inside a step (cancel / resume), solver solved twice, device read back from a file; non-trivial = at least 3 updates checked with a non-zero terminal current "
     "or a time-dependent field; distinct = distinct scenario digests"
 )
 BUDGET = {"quick": {"runs": 700, "chunk": 10}, "thorough": {"runs": 120000, "chunk": 20}}
@@ -39,7 +39,7 @@ def gen(seed, idx, tier):
         ]
         scn["meta"]["cancel_in_step"] = True
         return scn
-    return scen.maybe_solve_twice(rnd, scn)
+    return scen.maybe_restored(rnd, scen.maybe_solve_twice(rnd, scn))
 
 
 def check_frames(sim, h):
